@@ -332,6 +332,14 @@ func genSrcPlan(r *sim.Rng) simio.SourcePlan {
 	}
 }
 
+// genSrcPlanZ is genSrcPlan plus, in a third of the cases, calls that return
+// (0, nil): io.Reader allows a Read to report that nothing happened.
+func genSrcPlanZ(r *sim.Rng) simio.SourcePlan {
+	p := genSrcPlan(r)
+	p.Zero = sim.Pick(r, []int{0, 0, 0, 0, 3, 10})
+	return p
+}
+
 func genPostEOF(r *sim.Rng) []int {
 	n := r.Range(1, 4)
 	out := make([]int, n)
